@@ -35,6 +35,10 @@ def gen(ctx):
         if name == "TOPSIS":
             spec["metric"] = rng.choice(METRICS)
         dm = M.in_domain_dm(rng, spec, max_m=ctx.n(9, 14), max_n=6, ties=rng.choice([0.0, 0.3]), dups=0.2, dominated=0.5)
+        if dm["family"] == "dyadic" and rng.random() < 0.2:
+            off = float(2 ** 27)  # large common offset, small spread: still exact when differences are taken first
+            dm["matrix"] = [[x + off for x in row] for row in dm["matrix"]]
+            dm["int_matrix"] = False
         cases.append({"spec": spec, "dm": dm})
     return cases
 
